@@ -25,6 +25,7 @@ func TestProto(t *testing.T) {
 	if os.Getenv("C04_PROTO") == "" {
 		t.Skip()
 	}
+	for _, mode := range []string{"nogrpc", "listen", "rpc"} {
 	for _, backend := range []string{"memory", "sqlite"} {
 		dir := filepath.Join(runner.Scratch(), "proto")
 		text := fmt.Sprintf(`
@@ -33,6 +34,9 @@ pull_api  { listen "127.0.0.1:18081" grpc_listen "127.0.0.1:18083" auth token "r
 admin_api { listen "127.0.0.1:18082" }
 /r { queue { backend %s }  pull { path /e } }
 `, backend)
+		if mode == "nogrpc" {
+			text = dsl(backend, 18080)
+		}
 		start := time.Now()
 		n := 200
 		for i := 0; i < n; i++ {
@@ -44,6 +48,16 @@ admin_api { listen "127.0.0.1:18082" }
 					t.Fatal(err)
 				}
 				a.Store.Enqueue(queue.Envelope{ID: "a", Route: "/r", Target: "pull", Payload: []byte("p")})
+				if mode != "rpc" {
+					w := &world{a: a, backend: backend, dir: dir, store: a.Store, handles: map[string]string{}, reverse: map[string]string{}, bases: map[string]int{}}
+					w.do(op{Kind: "deq", Batch: 1})
+					time.Sleep(3 * time.Second)
+					w.do(op{Kind: "ack", Lease: "a#1"})
+					w.do(op{Kind: "ack", Lease: "a#1"})
+					time.Sleep(2 * time.Minute)
+					a.Shutdown()
+					return
+				}
 				conn, err := grpc.NewClient("passthrough:///c04", grpc.WithTransportCredentials(insecure.NewCredentials()),
 					grpc.WithContextDialer(func(ctx context.Context, _ string) (net.Conn, error) { return vnet.Dial("127.0.0.1:18083") }))
 				if err != nil {
@@ -71,6 +85,7 @@ admin_api { listen "127.0.0.1:18082" }
 				a.Shutdown()
 			})
 		}
-		t.Logf("%s: %v per iteration", backend, time.Since(start)/time.Duration(n))
+		t.Logf("%s %s: %v per iteration", mode, backend, time.Since(start)/time.Duration(n))
+	}
 	}
 }
